@@ -49,6 +49,8 @@ enum RdbOpcode {
     Hash = 0x04,
     /// Sorted set with ziplist encoding
     ZSet2 = 0x05,
+    /// Stream: entries as ID, field count, field-value pairs (ferrous' own layout)
+    Stream = 0x15,
 }
 
 /// RDB persistence engine
@@ -258,7 +260,7 @@ impl RdbEngine {
                         Value::Set(_) => buffer.push(RdbOpcode::Set as u8),
                         Value::Hash(_) => buffer.push(RdbOpcode::Hash as u8),
                         Value::SortedSet(_) => buffer.push(RdbOpcode::ZSet as u8),
-                        Value::Stream(_) => buffer.push(RdbOpcode::List as u8), // Streams use List opcode with marker
+                        Value::Stream(_) => buffer.push(RdbOpcode::Stream as u8),
                     }
                     
                     // Write key
@@ -313,18 +315,13 @@ impl RdbEngine {
                             );
                             
                             let entries = &range_result.entries;
-                            // Calculate correct total items: 1 marker + sum(2 + 2*field_count) for each entry
-                            let mut total_items = 1; // Stream marker
+                            // Total items: sum(2 + 2*field_count) for each entry
+                            let mut total_items = 0;
                             for entry in entries {
                                 total_items += 2; // ID string + field count string
                                 total_items += entry.fields.len() * 2; // field-value pairs
                             }
                             self.write_length(&mut buffer, total_items)?;
-                            
-                            // Write stream marker
-                            let marker = b"__FERROUS_STREAM_MARKER__";
-                            self.write_length(&mut buffer, marker.len())?;
-                            buffer.extend_from_slice(marker);
                             
                             // Write each entry
                             for entry in entries {
@@ -588,8 +585,8 @@ impl<W: Write> RdbWriter<W> {
                 }
             }
             Value::Stream(stream) => {
-                // Serialize streams properly by saving all entries
-                self.write_byte(RdbOpcode::List as u8)?;
+                // Streams have their own type code: a list is never mistaken for one on load
+                self.write_byte(RdbOpcode::Stream as u8)?;
                 self.write_string(key)?;
                 
                 // Use XRANGE to get all stream entries
@@ -602,15 +599,12 @@ impl<W: Write> RdbWriter<W> {
                 
                 let entries = &range_result.entries;
                 // Calculate total number of items to write
-                let mut total_items = 1; // +1 for the stream marker
+                let mut total_items = 0;
                 for entry in entries {
                     total_items += 2; // ID string + field count string
                     total_items += entry.fields.len() * 2; // field-value pairs
                 }
                 self.write_length(total_items)?;
-                
-                // Write stream marker to identify this as a stream during load
-                self.write_string(b"__FERROUS_STREAM_MARKER__")?;
                 
                 // Write each stream entry as: ID string, field count, field-value pairs
                 for entry in entries {
@@ -883,70 +877,63 @@ impl<R: Read> RdbReader<R> {
                 let key = self.read_string()?;
                 let count = self.read_length()?;
                 
-                // Check if this is a stream marker
-                if count >= 1 {
-                    let first_element = self.read_string()?;
-                    if first_element == b"__FERROUS_STREAM_MARKER__" {
-                        // This is a stream - reconstruct it
-                        let remaining_count = count - 1;
-                        let mut entry_idx = 0;
-                        
-                        while entry_idx < remaining_count {
-                            if entry_idx + 2 >= remaining_count {
-                                break; // Not enough data for a complete entry
-                            }
-                            
-                            // Read entry ID
-                            let id_str = self.read_string()?;
-                            entry_idx += 1;
-                            
-                            // Read field count
-                            let field_count_str = self.read_string()?;
-                            entry_idx += 1;
-                            
-                            let field_count: usize = match std::str::from_utf8(&field_count_str) {
-                                Ok(s) => s.parse().unwrap_or(0),
-                                Err(_) => 0,
-                            };
-                            
-                            // Check if we have enough remaining data for all fields
-                            if entry_idx + (field_count * 2) > remaining_count {
-                                break; // Not enough data for all field-value pairs
-                            }
-                            
-                            // Read field-value pairs
-                            let mut fields = HashMap::new();
-                            for _ in 0..field_count {
-                                let field = self.read_string()?;
-                                let value = self.read_string()?;
-                                fields.insert(field, value);
-                                entry_idx += 2;
-                            }
-                            
-                            // Parse stream ID and add entry to stream
-                            if let Some(stream_id) = crate::storage::stream::StreamId::from_string(
-                                std::str::from_utf8(&id_str).unwrap_or("")
-                            ) {
-                                let _ = storage.xadd_with_id(db, key.clone(), stream_id, fields);
-                            }
-                        }
-                        
-                        if let Some(ttl) = ttl {
-                            storage.expire(db, &key, ttl)?;
-                        }
-                        return Ok(());
-                    } else {
-                        // Regular list - first element already read
-                        storage.rpush(db, key.clone(), vec![first_element])?;
-                        
-                        // Read remaining list elements
-                        for _ in 1..count {
-                            let element = self.read_string()?;
-                            storage.rpush(db, key.clone(), vec![element])?;
-                        }
+                // Read all list elements
+                for _ in 0..count {
+                    let element = self.read_string()?;
+                    storage.rpush(db, key.clone(), vec![element])?;
+                }
+                
+                if let Some(ttl) = ttl {
+                    storage.expire(db, &key, ttl)?;
+                }
+            }
+            op if op == RdbOpcode::Stream as u8 => {
+                let key = self.read_string()?;
+                let remaining_count = self.read_length()?;
+                
+                // The stream exists even when it has no entries
+                storage.set_value(db, key.clone(), Value::empty_stream(), None)?;
+                
+                let mut entry_idx = 0;
+                
+                while entry_idx < remaining_count {
+                    if entry_idx + 2 > remaining_count {
+                        break; // Not enough data for a complete entry
                     }
-                } else {
-                    // Empty list - do nothing
+                    
+                    // Read entry ID
+                    let id_str = self.read_string()?;
+                    entry_idx += 1;
+                    
+                    // Read field count
+                    let field_count_str = self.read_string()?;
+                    entry_idx += 1;
+                    
+                    let field_count: usize = match std::str::from_utf8(&field_count_str) {
+                        Ok(s) => s.parse().unwrap_or(0),
+                        Err(_) => 0,
+                    };
+                    
+                    // Check if we have enough remaining data for all fields
+                    if entry_idx + (field_count * 2) > remaining_count {
+                        break; // Not enough data for all field-value pairs
+                    }
+                    
+                    // Read field-value pairs
+                    let mut fields = HashMap::new();
+                    for _ in 0..field_count {
+                        let field = self.read_string()?;
+                        let value = self.read_string()?;
+                        fields.insert(field, value);
+                        entry_idx += 2;
+                    }
+                    
+                    // Parse stream ID and add entry to stream
+                    if let Some(stream_id) = crate::storage::stream::StreamId::from_string(
+                        std::str::from_utf8(&id_str).unwrap_or("")
+                    ) {
+                        let _ = storage.xadd_with_id(db, key.clone(), stream_id, fields);
+                    }
                 }
                 
                 if let Some(ttl) = ttl {
